@@ -43,7 +43,7 @@ def expected_shifts(rule):
             return expected_shifts(rule.original_rule)[:1] if len(rule.original_rule.children) == 1 else (0,)
         return (0,)
     mins = [c.minimum_size_of_object() for c in rule.children]
-    if type(rule.strategy).__name__ in ("Peel", "Factor"):  # the two products of U1
+    if type(rule.strategy).__name__ in ("Peel", "Factor", "Shuffle"):  # the products of U1
         return tuple(sum(mins) - m for m in mins)
     return tuple(0 for _ in mins)
 
